@@ -1,4 +1,4 @@
-import Rangers.Proofs.JournalSteps2
+import Rangers.Proofs.JournalSuicide
 /-!
 # Property C04 — reverting to a snapshot restores the account state exactly
 
@@ -40,14 +40,15 @@ instance (s : ADB) (a : Addr) : Decidable (CodeHashOk s a) := by
   unfold CodeHashOk; split <;> infer_instance
 
 /-- side condition of one op in the state it is executed in -/
-def StepOk (s : ADB) : Op → Prop
+def StepOk (c : Cfg) (s : ADB) : Op → Prop
   | .setCode a _ _ => CodeHashOk s a
+  | .suicide a => SuicideOk c s a
   | op => Covered op = true
 
-instance (s : ADB) (op : Op) : Decidable (StepOk s op) := by
+instance (c : Cfg) (s : ADB) (op : Op) : Decidable (StepOk c s op) := by
   unfold StepOk; split <;> infer_instance
 
-instance decRunOk (c : Cfg) : (ops : List Op) → (s : ADB) → Decidable (RunOk StepOk c s ops)
+instance decRunOk (c : Cfg) : (ops : List Op) → (s : ADB) → Decidable (RunOk (StepOk c) c s ops)
   | [], _ => isTrue trivial
   | op :: ops, s => @instDecidableAnd _ _ inferInstance (decRunOk c ops (step c s op))
 
@@ -56,7 +57,7 @@ def AllCovered (ops : List Op) : Prop := ∀ op ∈ ops, Covered op = true
 
 instance (ops : List Op) : Decidable (AllCovered ops) := by unfold AllCovered; infer_instance
 
-theorem step_revAt (c : Cfg) (hp : c.p002 = true) (s : ADB) (op : Op) (hc : StepOk s op)
+theorem step_revAt (c : Cfg) (hp : c.p002 = true) (s : ADB) (op : Op) (hc : StepOk c s op)
     (h1 : op ≠ Op.snapshot) (h2 : ∀ id, op ≠ Op.revert id) : RevAt c (fun x => step c x op) s := by
   cases op with
   | setCode a code h =>
@@ -64,6 +65,7 @@ theorem step_revAt (c : Cfg) (hp : c.p002 = true) (s : ADB) (op : Op) (hc : Step
     have : CodeHashOk s a := hc
     unfold CodeHashOk at this
     rw [hr] at this; exact this
+  | suicide a => exact revAt_suicide c s a hc
   | setNonce a n => exact revAt_setNonce c s a n
   | incNonce a => exact revAt_incNonce c s a
   | setData a k v => exact revAt_setData c s a k v
@@ -92,15 +94,15 @@ theorem step_revAt (c : Cfg) (hp : c.p002 = true) (s : ADB) (op : Op) (hc : Step
   | qCodeHash a => exact revAt_qCodeHash c s a
   | _ => simp [StepOk, Covered] at hc
 
-theorem stepOk_of_covered (s : ADB) (op : Op) (h : Covered op = true) : StepOk s op := by
+theorem stepOk_of_covered (c : Cfg) (s : ADB) (op : Op) (h : Covered op = true) : StepOk c s op := by
   cases op <;> first | exact h | simp [Covered] at h
 
 theorem runOk_of_allCovered (c : Cfg) (ops : List Op) (h : AllCovered ops) (s : ADB) :
-    RunOk StepOk c s ops := by
+    RunOk (StepOk c) c s ops := by
   induction ops generalizing s with
   | nil => trivial
   | cons op ops ih =>
-    exact ⟨stepOk_of_covered _ _ (h op (List.mem_cons_self ..)), ih (fun o ho => h o (List.mem_cons_of_mem _ ho)) _⟩
+    exact ⟨stepOk_of_covered c _ _ (h op (List.mem_cons_self ..)), ih (fun o ho => h o (List.mem_cons_of_mem _ ho)) _⟩
 
 /-- `Sim`-equal states answer every query of the property alike -/
 theorem obs_of_sim (c : Cfg) {s t : ADB} (h : Sim s t) (hs : s.crashed = false) (a : Addr) (k : Key) (th hh : Hash) :
@@ -157,18 +159,18 @@ snapshot, run any list of covered ops — nested snapshots and reverts to any id
 to the snapshot.  If that revert does not panic, every query of the property answers as it did
 when the snapshot was taken. -/
 theorem revert_restores_obs_partial (c : Cfg) (hp : c.p002 = true) (s : ADB) (G : List ADB) (ops : List Op)
-    (hs : s.crashed = false) (ok : RevsOk s) (inv : Inv c s G) (hrun : RunOk StepOk c (snapshot s).1 ops)
+    (hs : s.crashed = false) (ok : RevsOk s) (inv : Inv c s G) (hrun : RunOk (StepOk c) c (snapshot s).1 ops)
     (hnc : (revert c (run c (snapshot s).1 ops) (snapshot s).2).crashed = false)
     (a : Addr) (k : Key) (th h : Hash) :
     obs c (revert c (run c (snapshot s).1 ops) (snapshot s).2) a k th h = obs c s a k th h := by
-  have hsim := revert_sim_generic c StepOk
+  have hsim := revert_sim_generic c (StepOk c)
     (fun s op hc h1 h2 => step_revAt c hp s op hc h1 h2) ops hs ok inv hrun hnc
   exact obs_of_sim c hsim hnc a k th h
 
 /-- the same from a state with an empty revision stack (start of a transaction); for runs without
     `SetCode` the side condition is just `AllCovered ops` (`runOk_of_allCovered`) -/
 theorem revert_restores_obs_fresh (c : Cfg) (hp : c.p002 = true) (s : ADB) (ops : List Op)
-    (hs : s.crashed = false) (hr : s.revisions = []) (hrun : RunOk StepOk c (snapshot s).1 ops)
+    (hs : s.crashed = false) (hr : s.revisions = []) (hrun : RunOk (StepOk c) c (snapshot s).1 ops)
     (hnc : (revert c (run c (snapshot s).1 ops) (snapshot s).2).crashed = false)
     (a : Addr) (k : Key) (th h : Hash) :
     obs c (revert c (run c (snapshot s).1 ops) (snapshot s).2) a k th h = obs c s a k th h :=
@@ -193,7 +195,8 @@ def demoOps : List Op :=
 /-- non-vacuity of `revert_restores_obs_fresh`: hypotheses hold for a concrete committed state and region,
     the region changes observations, and the revert brings them back -/
 example : AllCovered demoOps := by decide
-example : RunOk StepOk c0 (snapshot (setNonce ADB.empty A1 1)).1 (demoOps ++ [.setCode A1 [0x60] (toHash [9]), .addFT A1 [0x66, 0x3a, 0x78] 0]) := by
+example : RunOk (StepOk c0) c0 (snapshot (setNonce ADB.empty A1 1)).1
+    (demoOps ++ [.setCode A1 [0x60] (toHash [9]), .addFT A1 [0x66, 0x3a, 0x78] 0, .suicide A1, .qFT A1 [0x66, 0x3a, 0x78]]) := by
   decide
 example : (revert c0 (run c0 (snapshot (setNonce ADB.empty A1 1)).1 demoOps) 0).crashed = false := by decide
 example : obs c0 (run c0 (snapshot (setNonce ADB.empty A1 1)).1 demoOps) A1 [0x6b] [] [1]
@@ -280,6 +283,9 @@ theorem suicide_undo_rewrites_slot_counterexample :
     (obs c0 sPadded c0.tok (c0.balKey A1) [] []).slot = toHash [5] ∧
     (obs c0 r A1 [] [] []).balance = (obs c0 sPadded A1 [] [] []).balance := by
   decide
+
+/-- the side condition of `Suicide` in `StepOk` is exactly what fails in that history -/
+example : ¬ SuicideOk c0 (snapshot sPadded).1 A1 := by decide
 
 /-! ## revision stack -/
 
